@@ -55,7 +55,7 @@ verif_harness! {
     }
 }
 
-//@ harness name=bf_round_function prop=C09,C20 variants=blowfish tier=quick bits=32800 est=60 need=4 desc="L: round_function(x) on arbitrary S-boxes == F(x) = ((S1[a] + S2[b]) ^ S3[c]) + S4[d] mod 2^32, all x, all S-box contents; indices in range, additions wrap"
+//@ harness name=bf_round_function prop=C09,C20 variants=blowfish tier=quick bits=32800 est=50 need=4 desc="L: round_function(x) on arbitrary S-boxes == F(x) = ((S1[a] + S2[b]) ^ S3[c]) + S4[d] mod 2^32, all x, all S-box contents; indices in range, additions wrap"
 verif_harness! {
     name: bf_round_function,
     bytes: STATE + 4,
@@ -99,20 +99,20 @@ macro_rules! conf_harness {
     };
 }
 
-//@ harness name=bf_conf_enc_be prop=C09,C20 variants=blowfish tier=quick bits=33408 stub=1 est=80 need=5 desc="W: Blowfish<BE>::encrypt_block on an arbitrary state (P, S fully symbolic: superset of every keyed state) == Schneier's 16-round encryption, halves big-endian, all blocks; round_function uninterpreted (bf_round_function)"
+//@ harness name=bf_conf_enc_be prop=C09,C20 variants=blowfish tier=quick bits=33408 stub=1 est=90 need=5 desc="W: Blowfish<BE>::encrypt_block on an arbitrary state (P, S fully symbolic: superset of every keyed state) == Schneier's 16-round encryption, halves big-endian, all blocks; round_function uninterpreted (bf_round_function)"
 conf_harness!(bf_conf_enc_be, BE, false, encrypt_block, r::encipher_with, r::encrypt_block);
-//@ harness name=bf_conf_dec_be prop=C09,C20 variants=blowfish tier=quick bits=33408 stub=1 est=70 need=5 desc="W: Blowfish<BE>::decrypt_block on an arbitrary state == Schneier's decryption (P reversed), halves big-endian, all blocks; round_function uninterpreted"
+//@ harness name=bf_conf_dec_be prop=C09,C20 variants=blowfish tier=quick bits=33408 stub=1 est=90 need=5 desc="W: Blowfish<BE>::decrypt_block on an arbitrary state == Schneier's decryption (P reversed), halves big-endian, all blocks; round_function uninterpreted"
 conf_harness!(bf_conf_dec_be, BE, false, decrypt_block, r::decipher_with, r::decrypt_block);
-//@ harness name=bf_conf_enc_le prop=C09,C20 variants=blowfish tier=quick bits=33408 stub=1 est=60 need=5 desc="W: BlowfishLE::encrypt_block on an arbitrary state == the same permutation of the two 32-bit halves, halves read and written little-endian, all blocks; round_function uninterpreted"
+//@ harness name=bf_conf_enc_le prop=C09,C20 variants=blowfish tier=quick bits=33408 stub=1 est=65 need=5 desc="W: BlowfishLE::encrypt_block on an arbitrary state == the same permutation of the two 32-bit halves, halves read and written little-endian, all blocks; round_function uninterpreted"
 conf_harness!(bf_conf_enc_le, LE, true, encrypt_block, r::encipher_with, r::encrypt_block);
-//@ harness name=bf_conf_dec_le prop=C09,C20 variants=blowfish tier=quick bits=33408 stub=1 est=80 need=5 desc="W: BlowfishLE::decrypt_block on an arbitrary state == Schneier's decryption with halves little-endian, all blocks; round_function uninterpreted"
+//@ harness name=bf_conf_dec_le prop=C09,C20 variants=blowfish tier=quick bits=33408 stub=1 est=90 need=5 desc="W: BlowfishLE::decrypt_block on an arbitrary state == Schneier's decryption with halves little-endian, all blocks; round_function uninterpreted"
 conf_harness!(bf_conf_dec_le, LE, true, decrypt_block, r::decipher_with, r::decrypt_block);
 
 fn swap_halves(b: &[u8; 8]) -> [u8; 8] {
     [b[3], b[2], b[1], b[0], b[7], b[6], b[5], b[4]]
 }
 
-//@ harness name=bf_le_is_swapped_be prop=C09 variants=blowfish tier=quick bits=33408 stub=1 est=215 need=11 desc="W: on the same arbitrary state, BlowfishLE enc/dec of b == byte-swap-each-half(Blowfish<BE> enc/dec of byte-swap-each-half(b)), all blocks; round_function uninterpreted (same function for both instantiations: same S-boxes)"
+//@ harness name=bf_le_is_swapped_be prop=C09 variants=blowfish tier=quick bits=33408 stub=1 est=170 need=11 desc="W: on the same arbitrary state, BlowfishLE enc/dec of b == byte-swap-each-half(Blowfish<BE> enc/dec of byte-swap-each-half(b)), all blocks; round_function uninterpreted (same function for both instantiations: same S-boxes)"
 verif_harness! {
     name: bf_le_is_swapped_be,
     bytes: STATE + 8,
@@ -155,11 +155,11 @@ macro_rules! rt_harness {
     };
 }
 
-//@ harness name=bf_roundtrip_ed_be prop=C01 variants=blowfish tier=quick bits=33408 stub=1 est=70 need=5 desc="W: Blowfish<BE>: decrypt_block(encrypt_block(b)) == b on an arbitrary state (superset of every state reachable by keying with 4..=56 bytes or by bcrypt steps), all blocks; round_function uninterpreted (a Feistel network inverts for any round function)"
+//@ harness name=bf_roundtrip_ed_be prop=C01 variants=blowfish tier=quick bits=33408 stub=1 est=80 need=5 desc="W: Blowfish<BE>: decrypt_block(encrypt_block(b)) == b on an arbitrary state (superset of every state reachable by keying with 4..=56 bytes or by bcrypt steps), all blocks; round_function uninterpreted (a Feistel network inverts for any round function)"
 rt_harness!(bf_roundtrip_ed_be, BE, encrypt_block, decrypt_block);
-//@ harness name=bf_roundtrip_de_be prop=C01 variants=blowfish tier=quick bits=33408 stub=1 est=60 need=5 desc="W: Blowfish<BE>: encrypt_block(decrypt_block(b)) == b on an arbitrary state, all blocks; round_function uninterpreted"
+//@ harness name=bf_roundtrip_de_be prop=C01 variants=blowfish tier=quick bits=33408 stub=1 est=80 need=5 desc="W: Blowfish<BE>: encrypt_block(decrypt_block(b)) == b on an arbitrary state, all blocks; round_function uninterpreted"
 rt_harness!(bf_roundtrip_de_be, BE, decrypt_block, encrypt_block);
-//@ harness name=bf_roundtrip_ed_le prop=C01 variants=blowfish tier=quick bits=33408 stub=1 est=70 need=5 desc="W: BlowfishLE: decrypt_block(encrypt_block(b)) == b on an arbitrary state, all blocks; round_function uninterpreted"
+//@ harness name=bf_roundtrip_ed_le prop=C01 variants=blowfish tier=quick bits=33408 stub=1 est=80 need=5 desc="W: BlowfishLE: decrypt_block(encrypt_block(b)) == b on an arbitrary state, all blocks; round_function uninterpreted"
 rt_harness!(bf_roundtrip_ed_le, LE, encrypt_block, decrypt_block);
-//@ harness name=bf_roundtrip_de_le prop=C01 variants=blowfish tier=quick bits=33408 stub=1 est=75 need=5 desc="W: BlowfishLE: encrypt_block(decrypt_block(b)) == b on an arbitrary state, all blocks; round_function uninterpreted"
+//@ harness name=bf_roundtrip_de_le prop=C01 variants=blowfish tier=quick bits=33408 stub=1 est=70 need=5 desc="W: BlowfishLE: encrypt_block(decrypt_block(b)) == b on an arbitrary state, all blocks; round_function uninterpreted"
 rt_harness!(bf_roundtrip_de_le, LE, decrypt_block, encrypt_block);
